@@ -309,3 +309,36 @@ def leak_probe_frames(rnd, size=60000):
     yield envelope(3, 1, rnd.randbytes(size))[:-1] + b'\x00', \
         'leak:body-bad-end-octet'
     yield envelope(3, 1, rnd.randbytes(size)), 'leak:valid-big-body'
+
+
+def deep_underdeclared_frames(rnd, depth):
+    """Alternating containers whose declared length is SHORTER than their
+    content, at every level: a decoder that returns the declared end of a
+    container but has read (and decoded) beyond it makes its parent decode
+    the same bytes again - per level."""
+    shapes = {
+        'A[F1]': (lambda v: b'F' + struct.pack('>I', 1) + b'\x00' + v,
+                  lambda t: b'A' + struct.pack('>I', len(t)) + t),
+        'A[F-short]': (lambda v: b'F' + struct.pack('>I', max(
+            1, len(v) // 2)) + b'\x01k' + v,
+            lambda t: b'A' + struct.pack('>I', len(t)) + t),
+        'F[A-short]': (lambda v: b'A' + struct.pack('>I', 1) + v,
+                       lambda t: b'F' + struct.pack('>I', len(t) + 2) +
+                       b'\x01k' + t),
+        'F[F1]': (lambda v: b'F' + struct.pack('>I', 3) + b'\x01k' + v,
+                  lambda t: b'F' + struct.pack('>I', len(t) + 2) + b'\x01k'
+                  + t),
+        'A[A1]': (lambda v: b'A' + struct.pack('>I', 1) + v,
+                  lambda t: b'A' + struct.pack('>I', len(t)) + t),
+    }
+    for name, (inner, outer) in shapes.items():
+        v = b'V'
+        for _ in range(depth):
+            v = outer(inner(v))
+        tab = b'\x01d' + v
+        table = struct.pack('>I', len(tab)) + tab
+        p = struct.pack('>HHBB', 10, 10, 0, 9) + table + \
+            struct.pack('>I', 0) + struct.pack('>I', 0)
+        yield envelope(1, 0, p), 'deep-underdeclared:%s:%d' % (name, depth)
+        h = struct.pack('>HHQH', 60, 0, 0, 0x2000) + table
+        yield envelope(2, 1, h), 'deep-underdeclared:%s:%d' % (name, depth)
